@@ -127,6 +127,11 @@ func TarWriteHeader(tw *tar.Writer, h *tar.Header) error {
 	if len(h.Name) > 200 || len(h.Linkname) > 150 || len(h.Uname) > 50 || len(h.Gname) > 50 {
 		return fmt.Errorf("archive/tar: model: field too long")
 	}
+	if (h.Format == tar.FormatUSTAR || h.Format == tar.FormatPAX) && (h.Mode < 0 || h.Mode > 0o7777777) {
+		// USTAR and PAX store the mode in 7 octal digits; only GNU has a binary escape
+		// (an unspecified format lets the writer fall back to GNU)
+		return fmt.Errorf("archive/tar: cannot encode header: Mode=%d", h.Mode)
+	}
 	e := &TarEntry{Hdr: *h}
 	st.Entries = append(st.Entries, e)
 	size := h.Size
